@@ -65,7 +65,7 @@ def _sharded(args, shards, seed, timeout=3000):
     return out
 
 
-def _replay_cover(c, cfg, init, what):
+def _replay_cover(c, cfg, init, what, both=True):
     res = vf.run_tlc(SPEC, "MCChainClaims", cfg, c.scratch, workers=8, env={"INIT_FILE": init}, timeout=3000)
     if not res.ok:
         raise vf.MachineryError("design model %s violates %s (a design counterexample is not a verdict; confirm by replay)" % (cfg, res.violated))
@@ -74,11 +74,14 @@ def _replay_cover(c, cfg, init, what):
     if vf.extract_behaviours(res.stdout_path, beh) == 0:
         raise vf.MachineryError("no behaviours emitted by " + cfg)
     os.remove(res.stdout_path)
-    rep = _sharded(["replay-claims", "-in", beh], 8, c.seed)
+    # every behaviour is replayed on a node that never dispatched AND on one that serves dispatches after every
+    # commit (sessions cached): the specification's verdicts do not depend on it
+    rep = _sharded(["replay-claims", "-in", beh] + (["-both"] if both else []), 8, c.seed)
     os.remove(beh)
     if rep.get("behaviours", 0) == 0:
         raise vf.MachineryError("dead replay: no behaviour of %s was replayed" % cfg)
-    c.add_replay(rep, what + " (" + cfg + ") replayed on PocketCoreApp with real evidence")
+    c.add_replay(rep, what + " (" + cfg + ") replayed on PocketCoreApp with real evidence, %d of the runs on a node with cached sessions (dispatches served)"
+                 % rep["extra"].get("dispatching_variants", 0))
     c.cov.setdefault("replay_classes", {})
     for k, v in (rep.get("op_counts") or {}).items():
         c.cov["replay_classes"][k] = c.cov["replay_classes"].get(k, 0) + v
@@ -108,7 +111,7 @@ def _expect_design_counterexample(c, module, cfg, inv, init, what):
 
 
 def _traces(c, thorough):
-    ntr, blocks = (24, 60) if thorough else (4, 36)
+    ntr, blocks = (24, 60) if thorough else (3, 32)
     tr = os.path.join(c.scratch, "trace-claims.ndjson")
     targs = ["trace-claims", "-out", tr, "-n", ntr, "-blocks", blocks]
     rep = vf.run_harness(BIN, targs, env={"VERIF_SEED": c.seed}, timeout=3000)
@@ -117,18 +120,15 @@ def _traces(c, thorough):
     return tr, targs, rep
 
 
-def _strict_trace_hits(c, tr, tag):
-    """Run the strict cfg on the recorded trace and return the lines it reports with the known-pattern tag
-    (tags of the other property are not this check's business)."""
-    res = vf.run_tlc(SPEC, "TraceChainClaims", "TraceChainClaims_%sstrict.cfg" % c.pid, c.scratch, workers=1,
-                     env={"TRACE_FILE": tr}, timeout=3000, tag="TraceChainClaims-strict")
-    if res.ok:
-        return []
-    errs = res.final_state.get("errs", "")
-    hits = re.findall(r'<<(\d+), "(\w+)">>', errs)
-    if any(h[1] == c.pid for h in hits):
-        raise vf.MachineryError("strict trace validation reports %s although the regular one accepted the trace" % hits)
-    return [int(h[0]) for h in hits if h[1] == tag]
+def _known_pattern_lines(res, tag):
+    """Lines of the validated trace at which TraceChainClaims printed the known-finding pattern `tag`."""
+    out = []
+    with open(res.stdout_path, errors="replace") as f:
+        for l in f:
+            m = re.match(r'<<"KNOWN-PATTERN", (\d+), "(\w+)">>', l.strip())
+            if m and m.group(2) == tag:
+                out.append(int(m.group(1)))
+    return out
 
 
 def _event(tr, line):
@@ -143,22 +143,18 @@ def c31(c):
     thorough = c.tier == "thorough"
     vf.build_harness([BIN])
     _assumptions(c)
-    # ---- 1. the selection function itself: range and determinism over many inputs
+    # ---- 1. the selection function itself: range and determinism over many inputs (validated with the chains, step 4)
     ncases = 20000 if thorough else 3000
     ix = os.path.join(c.scratch, "index.ndjson")
     iargs = ["index-fn", "-out", ix, "-cases", ncases]
     rep = vf.run_harness(BIN, iargs, env={"VERIF_SEED": c.seed})
     c.add("impl_steps", rep["steps"])
     c.cov["index_spread_total5"] = rep["extra"].get("spread_total5")
-    vf.validate_trace(c, SPEC, "TraceChainClaims", "TraceChainClaims_C31.cfg", ix, "leaf index function",
-                      [BIN] + [str(a) for a in iargs], 1, timeout=3000)
-    if c.violations:
-        return c.finish(rule="stopped after the first failing stage")
     # ---- 2. window arithmetic over all B in 1..6, W in 1..4 (TLC), every valid case on a real chain
     res = vf.run_tlc(SPEC, "MCChainClaimsTiming", "MCChainClaimsTiming_cover.cfg", c.scratch, workers=4, timeout=900)
     if not res.ok:
         raise vf.MachineryError("timing model violates %s" % res.violated)
-    c.add_tlc(res, "TLC exhaustive MCChainClaimsTiming (B 1..6, W 1..4, two sessions, every height around the claim window)")
+    c.add_tlc(res, "TLC exhaustive MCChainClaimsTiming (B 1..6, W 1..4, two sessions, every height around the claim window, node with / without cached session)")
     beh = os.path.join(c.scratch, "timing-beh.txt")
     if vf.extract_behaviours(res.stdout_path, beh) == 0:
         raise vf.MachineryError("no timing cases emitted")
@@ -166,7 +162,7 @@ def c31(c):
     rep = vf.run_harness(BIN, ["replay-timing", "-in", beh], env={"VERIF_SEED": c.seed}, timeout=3000)
     if rep.get("behaviours", 0) == 0:
         raise vf.MachineryError("dead replay: no timing case was replayed")
-    c.add_replay(rep, "timing cases replayed: one real chain per (B, W) accepted at genesis, a claim at every case height")
+    c.add_replay(rep, "timing cases replayed: one real chain per (B, W, dispatching or not) accepted at genesis, a claim at every case height")
     c.cov["timing_outcomes"] = rep.get("op_counts", {})
     c.cov["timing_model_only_cases"] = rep["extra"].get("model_only_cases")
     c.cov["abandoned"] = c.cov.get("abandoned", 0) + rep["extra"].get("other_disagreements", 0)   # window start: C32's footprint
@@ -200,16 +196,18 @@ def c31(c):
             return c.finish(rule="stopped after the first failing stage")
     # ---- 4. recorded chains validated by TLC
     tr, targs, rep = _traces(c, thorough)
-    res = vf.validate_trace(c, SPEC, "TraceChainClaims", "TraceChainClaims_C31.cfg", tr, "scenario and random claim chains",
-                            [BIN] + [str(a) for a in targs], rep["behaviours"], timeout=3000)
+    with open(tr, "a") as f:                       # index-function events are validated in the same TLC run
+        f.write(open(ix).read())
+    res = vf.validate_trace(c, SPEC, "TraceChainClaims", "TraceChainClaims_C31.cfg", tr, "scenario and random claim chains + index function evaluations",
+                            [BIN] + [str(a) for a in targs] + ["&&", BIN] + [str(a) for a in iargs], rep["behaviours"] + 1, timeout=3000)
     if res.ok:
-        lines = _strict_trace_hits(c, tr, "C31K")
+        lines = _known_pattern_lines(res, "C31K")
         for ln in lines[:1]:
             e = _event(tr, ln)
             if e and kf:
                 c.known_finding("F-C31 (trace) line %d: claim for session %d accepted at height %d = last accepted height; the index %s predicted from "
-                                "committed block %s before authoring is the enforced one (TraceChainClaims strict invariant reports exactly this pattern)"
-                                % (ln, e["tx"]["sessionH"], e["h"], e["tx"].get("predIdx"), e["tx"].get("predFrom")))
+                                "committed block %s before authoring is the enforced one (TraceChainClaims reports exactly this pattern, %d times in the recorded chains)"
+                                % (ln, e["tx"]["sessionH"], e["h"], e["tx"].get("predIdx"), e["tx"].get("predFrom"), len(lines)))
             elif e:
                 c.violation("claim accepted at a height whose previous block selects the leaf (trace line %d)" % ln,
                             {"kind": "trace", "harness_cmd": [BIN] + [str(a) for a in targs], "line": ln, "event": e})
@@ -238,7 +236,7 @@ def c32(c):
            ["MCChainClaims_cover_q.cfg", "MCChainClaims_deep_q.cfg"]
     repay = 0
     for cfg in cfgs:
-        rep = _replay_cover(c, cfg, init, "transition cover")
+        rep = _replay_cover(c, cfg, init, "transition cover", both=(cfg != "MCChainClaims_deep.cfg"))   # deep.cfg: TLC enumerates both modes itself
         repay += rep["extra"].get("repay_confirmed", 0)
         c.cov["not_applicable"] = c.cov.get("not_applicable", 0) + rep["extra"].get("not_applicable", 0)
         if c.violations:
@@ -250,7 +248,7 @@ def c32(c):
     res = vf.validate_trace(c, SPEC, "TraceChainClaims", "TraceChainClaims_C32.cfg", tr, "scenario and random claim chains",
                             [BIN] + [str(a) for a in targs], rep["behaviours"], timeout=3000)
     if res.ok:
-        lines = _strict_trace_hits(c, tr, "C32K")
+        lines = _known_pattern_lines(res, "C32K")
         again = [b for b in bnd if b.get("proofAgain") == "ok" and b.get("mintedAgain", 0) > 0]
         if lines and again:
             b0 = again[0]
@@ -331,6 +329,9 @@ def _sample_trace(c, tr):
 
 
 def _assumptions(c):
+    c.assume("off-chain dimension: a 'dispatching' node serves PocketCoreApp.HandleDispatch for (a4, 0001) and (a5, 0002) after every commit, "
+             "which puts the current session into the node-local GlobalSessionCache that ValidateClaim consults; the specification never reads "
+             "that cache, so any dependence of a claim / proof outcome on it shows up as a divergence")
     c.assume("the harness plays Tendermint deterministically (block metas saved before BeginBlock, header.LastBlockId = hash of the previous "
              "block, votes from the reported validator set, tx indexing after Commit); features active from height 2 except RSCAL in the main "
              "configuration (its activation resets the stake-weight bins to 15 000 POKT, which zeroes every reward of the small economy; one "
@@ -344,7 +345,8 @@ def _assumptions(c):
              "(pseudorandom selection is C33's subject)")
 
 
-RULE = ("behaviours = every transition of the design-model state graphs started from the projection of a real chain (claim shapes x proof "
+RULE = ("every behaviour / timing case is run on a node that never served a dispatch and on a node that serves dispatches after every "
+        "commit (session cached when the claim arrives); behaviours = every transition of the design-model state graphs started from the projection of a real chain (claim shapes x proof "
         "constructions x sessions x heights, several transactions per block; timing cases B x W x session x height), each replayed on a "
         "fresh PocketCoreApp with really signed evidence; plus recorded scripted three-session scenarios, boundary scenarios and seeded "
         "random chains validated by TLC. non-trivial = contains an accepted claim / a paid or burned proof (timing: an accepted claim); "
